@@ -32,22 +32,23 @@ import (
 // moment the client sees its transport closed.
 
 type linOp struct {
-	Idx    int
-	Client int
-	Part   byte // 'S' sessions, 'B' broker, 'D' dealer
-	Kind   string
-	Sess   wamp.ID
-	URI    string
-	Match  string
-	Invoke string
-	ID     wamp.ID
-	ExclMe bool
-	Excl   []wamp.ID
-	Elig   []wamp.ID
-	HasEl  bool
-	Ack    bool
-	Tag    string
-	Blind  *[]wamp.ID // sessions that dropped their transport without reading on: what was sent to them last is unobserved
+	Idx     int
+	Client  int
+	Part    byte // 'S' sessions, 'B' broker, 'D' dealer
+	Kind    string
+	Sess    wamp.ID
+	URI     string
+	Match   string
+	Invoke  string
+	ID      wamp.ID
+	ExclMe  bool
+	Excl    []wamp.ID
+	Elig    []wamp.ID
+	HasEl   bool
+	Ack     bool
+	Tag     string
+	rawRegs bool       // Set still holds the realm's own wamp.* registrations
+	Blind   *[]wamp.ID // sessions that dropped their transport without reading on: what was sent to them last is unobserved
 	// outputs
 	OutID wamp.ID
 	Err   string
@@ -965,7 +966,8 @@ func (lw *linWorld) exec(cl *linClient, idx int, t linTmpl) {
 	case "reglist":
 		o := base('D', "reglist")
 		if res := lw.metaCall(cl, o, "wamp.registration.list", nil); res != nil {
-			o.Set = lw.listByMatch(res, lw.internal)
+			o.Set = lw.listByMatch(res, nil) // the realm's own registrations are taken out at the end
+			o.rawRegs = true
 		}
 	case "reglookup":
 		o := base('D', "reglookup")
@@ -1120,7 +1122,14 @@ func runLin(c *Ctx, fl linFlavour) {
 	g := c.Gen
 	strict := g.Chance(1, 4)
 	rc := &router.RealmConfig{URI: "r1", AnonymousAuth: true, AllowDisclose: true, StrictURI: strict}
-	w, err := NewWorld(c.S, &router.Config{RealmConfigs: []*router.RealmConfig{rc}})
+	// in a fifth of the runs the realm does not exist yet: it comes into being from the
+	// router's realm template when the first clients - several at once - say HELLO
+	tmpl := g.Chance(1, 5)
+	cfg := &router.Config{RealmConfigs: []*router.RealmConfig{rc}}
+	if tmpl {
+		cfg = &router.Config{RealmTemplate: &router.RealmConfig{AnonymousAuth: true, AllowDisclose: true, StrictURI: strict}}
+	}
+	w, err := NewWorld(c.S, cfg)
 	if err != nil {
 		c.Res.Tooling = "NewRouter: " + err.Error()
 		return
@@ -1143,26 +1152,20 @@ func runLin(c *Ctx, fl linFlavour) {
 		n += k
 	}
 	c.Res.NOps = n
-	// bootstrap: one observer session that stays; learns the realm's own registrations
-	boot := w.NewSess("boot", "r1", true, 512, nil)
-	if !boot.Join() {
-		c.Res.Tooling = "boot session could not join"
-		return
-	}
-	breq := boot.NextReq()
-	boot.Send(&wamp.Call{Request: breq, Options: wamp.Dict{}, Procedure: "wamp.registration.list"})
-	br, _ := boot.Await(time.Second, func(m wamp.Message) bool { r, ok := m.(*wamp.Result); return ok && r.Request == breq }).(*wamp.Result)
-	if br == nil {
-		c.Res.Tooling = "boot: no answer to wamp.registration.list"
-		return
-	}
-	d, _ := wamp.AsDict(arg0(br))
-	for _, m := range []string{"exact", "prefix", "wildcard"} {
-		for _, id := range idsOf(d[m]) {
-			lw.internal[id] = true
+	// bootstrap: one observer session that stays (not with a template realm: there the
+	// clients' first joins are the ones that create the realm)
+	var bootID wamp.ID
+	if !tmpl {
+		boot := w.NewSess("boot", "r1", true, 512, nil)
+		if !boot.Join() {
+			c.Res.Tooling = "boot session could not join"
+			return
 		}
+		bootID = boot.ID
+		lw.allSess = append(lw.allSess, boot.ID)
+	} else {
+		c.Probe("lin_template_realm")
 	}
-	lw.allSess = append(lw.allSess, boot.ID)
 	done := make(chan int)
 	idx := 0
 	var sample []string
@@ -1239,11 +1242,22 @@ func runLin(c *Ctx, fl linFlavour) {
 		}
 	}
 	for _, o := range lw.ops {
+		if o.rawRegs {
+			// keep the registrations some client was told about; the others are the realm's own
+			var keep []string
+			for _, e := range o.Set {
+				var id wamp.ID
+				fmt.Sscanf(e[2:], "%d", &id)
+				if hasID(lw.allRegs, id) {
+					keep = append(keep, e)
+				}
+			}
+			o.Set = keep
+		}
 		sort.Strings(o.Set)
 	}
 	if len(c.Res.Violations) == 0 {
 		ops := lw.ops
-		bootID := boot.ID
 		c.Res.post = func(res *Result) { linCheck(res, ops, bootID, strict) }
 	}
 	CloseAll(c, w, false)
@@ -1271,7 +1285,12 @@ func linCheck(res *Result, ops []*linOp, boot wamp.ID, strict bool) {
 			continue
 		}
 		model := porcupine.Model{
-			Init:  func() interface{} { return &linState{Sess: []wamp.ID{boot}} },
+			Init: func() interface{} {
+				if boot == 0 {
+					return &linState{}
+				}
+				return &linState{Sess: []wamp.ID{boot}}
+			},
 			Step:  linStep(strict),
 			Equal: func(a, b interface{}) bool { return a.(*linState).Key() == b.(*linState).Key() },
 		}
